@@ -115,6 +115,12 @@ Theorem C17_fresh_after : forall (files : list domainv) (h : heap),
   fresh_domain_types code_init (fst (locate_types_store code_init files h)) = hget h 0.
 Proof. exact C17_fresh_after_lemma. Qed.
 
+Theorem C17_fresh_only_object : forall (files : list domainv) (h : heap),
+  hget h 0 = [("object", "")] -> 0 < List.length h ->
+  keys (fresh_domain_types code_init (fst (locate_types_store code_init files h))) = ["object"] /\
+  forall l, l < List.length h -> hget (fst (locate_types_store code_init files h)) l = hget h l.
+Proof. exact C17_fresh_only_object_lemma. Qed.
+
 Theorem C17_store_refines : forall (files : list domainv) (h : heap),
   0 < List.length h ->
   let r := locate_types_store code_init files h in
@@ -165,6 +171,24 @@ Theorem C17_example_wellformed :
   ex_refsT "(at ?a - agent ?l - loc)" = ["agent"; "loc"].
 Proof. exact (conj (proj1 ex_wf_domains) (conj (proj2 ex_wf_domains) (conj ex_wf_problems (proj1 ex_refs_nontrivial)))). Qed.
 
+(* ---------------------------------------------------------------- the four parts of the property under their short names *)
+Theorem C17_union :
+  (forall (defaults : alist) (files : list domainv),
+     NoDup (keys defaults) -> sections_agree defaults files ->
+     domain_is_union defaults files (combine_domains defaults files)) /\
+  (forall files : list problemv,
+     problem_files_ok files -> problem_is_union files (combine_problems files)).
+Proof. exact (conj C17_union_domains_lemma C17_union_problems_lemma). Qed.
+
+Theorem C17_order :
+  (forall (defaults : alist) (files files' : list domainv),
+     NoDup (keys defaults) -> sections_agree defaults files -> Permutation files files' ->
+     domain_equiv (combine_domains defaults files) (combine_domains defaults files')) /\
+  (forall files files' : list problemv,
+     problem_files_ok files -> Permutation files files' ->
+     problem_equiv (combine_problems files) (combine_problems files')).
+Proof. exact (conj C17_order_domains_lemma C17_order_problems_lemma). Qed.
+
 (* ---------------------------------------------------------------- the checkers of the correspondence run are sound *)
 Theorem C17_union_checker_sound : forall (ds : list alist) (c : alist),
   union_of_b ds c = true -> union_of ds c.
@@ -204,7 +228,10 @@ Print Assumptions C17_order_problems.
 Print Assumptions C17_order_needs_agreement.
 Print Assumptions C17_no_leak.
 Print Assumptions C17_fresh_after.
+Print Assumptions C17_fresh_only_object.
 Print Assumptions C17_store_refines.
+Print Assumptions C17_union.
+Print Assumptions C17_order.
 Print Assumptions C17_leak_when_aliased.
 Print Assumptions C17_wellformed_domains.
 Print Assumptions C17_wellformed_problems.
